@@ -133,6 +133,7 @@ class Frame:
     loopvars: set = field(default_factory=set)
     depth: int = 0
     mask_ctx: Optional[str] = None  # slice text of the masked store being evaluated
+    return_states: list = field(default_factory=list)  # object-env snapshot at every `return`
 
 
 class Interp:
@@ -270,6 +271,7 @@ class Interp:
         if isinstance(st, ast.Return):
             v = self.eval(st.value, fr) if st.value is not None else None
             fr.returns.append((None, v))
+            fr.return_states.append((st, dict(self.objenv)))
             return "return"
         if isinstance(st, ast.If):
             return self.if_stmt(st, fr)
@@ -608,7 +610,10 @@ class Interp:
                 return self.eval(node.orelse, fr)
             return self._join(unparse(node.test), self.eval(node.body, fr), self.eval(node.orelse, fr))
         if isinstance(node, ast.Slice):
-            return Ref("slice:" + unparse(node))
+            lo = vtext(self.eval(node.lower, fr)) if node.lower is not None else ""
+            hi = vtext(self.eval(node.upper, fr)) if node.upper is not None else ""
+            st = (":" + vtext(self.eval(node.step, fr))) if node.step is not None else ""
+            return Ref(f"slice:{lo}:{hi}{st}")
         if isinstance(node, ast.JoinedStr):
             return Ref("str:" + unparse(node))
         if isinstance(node, ast.DictComp) and len(node.generators) == 1:
